@@ -63,13 +63,17 @@ def run_lib(rebound, c):
     sim = new_sim(rebound, c["integrator"], c["t0"], c["dt"])
     ev = dict(c["events"])
     steps0 = sim.steps_done
-    if ev:
-        def hb(simp):
-            s = simp.contents
-            k = s.steps_done - steps0
-            if k in ev and s._status < 0:
-                s._status = ev[k]
-        sim.heartbeat = hb
+    # step cap: a library that never reaches the target must end as a mismatch with a concrete input, not as a hang
+    tprev = [c["t0"]] + list(c["targets"])
+    cap = int(sum(abs(b - a) for a, b in zip(tprev, tprev[1:])) / abs(c["dt"])) + 4 * len(c["targets"]) + 8
+    def hb(simp):
+        s = simp.contents
+        k = s.steps_done - steps0
+        if k in ev and s._status < 0:
+            s._status = ev[k]
+        elif k > cap and s._status < 0:
+            s._status = 98           # no exit code of the library: "did not terminate"
+    sim.heartbeat = hb
     st = 0
     for tm in c["targets"]:
         try:
@@ -93,6 +97,7 @@ def coq_case(c, got):
 
 def run(ctx):
     libdir = ctx.lib()
+    ctx.regen("translate_c08.py")      # Gen/C08Consts.v: constants and shape of the finishing test of reb_check_exit
     proved = ctx.prove("C08", extra_targets=["C08/Run.vo"])
     sys.path.insert(0, libdir)
     import rebound
@@ -163,12 +168,15 @@ def run(ctx):
             steps0 = sim.steps_done
             t_before, dt_before = sim.t, sim.dt
             evc = ev if ci == 0 else {}
-            def hb(simp, ev=evc, ts=ts, steps0=steps0):
+            capo = (int(abs(tm - t_before) / abs(c["dt"])) + 12) if integ in fixed else 200000
+            def hb(simp, ev=evc, ts=ts, steps0=steps0, capo=capo):
                 s = simp.contents
                 ts.append(s.t)
                 kk = s.steps_done - steps0
                 if kk in ev and s._status < 0:
                     s._status = ev[kk]
+                elif kk > capo and s._status < 0:
+                    s._status = 98       # "did not terminate"
             sim.heartbeat = hb
             p0 = [(p.x, p.y, p.z, p.vx, p.vy, p.vz) for p in sim.particles]
             try:
@@ -180,6 +188,8 @@ def run(ctx):
             sign = 1.0 if tm > t_before else -1.0
             dt_user = math.copysign(dt_before, sign) if tm != t_before else dt_before
             why = None
+            if st == 98:
+                why = "integrate did not reach the target within %d steps (|tmax-t|/|dt| = %.3g)" % (capo, abs(tm - t_before) / abs(c["dt"]))
             if st == 0:
                 if c["exact"] and tm != t_before:
                     tscale = 1e-12 * abs(tm)
